@@ -285,8 +285,28 @@ def wrapper_fanout(K=3, kind="wrappers"):
     return {"R": R, "ops": ops, "ranks": ranks, "mode": "plain"}
 
 
+def holder_in_payload(variant="later-recv"):
+    """a send whose payload contains a send holder (the value of a holder is its passthrough data, so the payload does
+    not depend on what the held send transmits).  variant 'later-recv': the held send depends on a receive that can
+    only arrive after this payload was sent (acyclic by value, cyclic if the held send's data counted as a dependency);
+    variant 'independent': the held send depends on the input only"""
+    R = 2
+    ops = [{"src": 1, "dst": 0, "tag": 100, "deps": [2], "use_input": False},
+           {"src": 0, "dst": 1, "tag": 101, "deps": [0] if variant == "later-recv" else [], "use_input": variant != "later-recv"},
+           {"src": 0, "dst": 1, "tag": 102, "deps": [], "use_input": True}]
+    ra = recv_term(ops[0])
+    held_data = ["bin", "mul", ra, ["py", 2.0]] if variant == "later-recv" else ["bin", "mul", inp(0), ["py", 2.0]]
+    H = ["send", held_data, 1, 101, inp(0)]
+    out0 = ["send", ["bin", "add", H, ["py", 1.0]], 1, 102, ["bin", "add", ["bin", "mul", inp(0), ["py", 0.5]], ["bin", "mul", ra, ["py", 3.0]]]]
+    rc = recv_term(ops[2])
+    out1 = ["send", ["bin", "mul", rc, ["py", 3.0]], 0, 100, ["bin", "add", recv_term(ops[1]), inp(1)]]
+    return {"R": R, "ops": ops, "ranks": {0: {"outs": [["out", out0]]}, 1: {"outs": [["out", out1]]}}, "mode": "plain"}
+
+
 def structured(tier):
     res = []
+    res.append(("holder-in-payload", holder_in_payload("independent")))
+    res.append(("holder-in-payload-later-recv", holder_in_payload("later-recv")))
     for K in (2, 3):
         res.append((f"wrapper-fanout{K}", wrapper_fanout(K)))
     res.append(("input-fanout3", wrapper_fanout(3, "inputs")))
